@@ -9,30 +9,30 @@ func c09Specs() []*bfsSpec {
 		"ans:0:old:full", "ans:0:old:short", "ans:0:old:empty", "ans:0:old:long", "ans:0:old:corrupt", "ans:0:new:full", "ans:0:old:otherbegin", "ansq:0",
 		"rej:0:old", "close:0", "adv:2", "adv:31", "donthave:0:0", "havenone:0", "haveall:0"}
 	return []*bfsSpec{
-		{Name: "c09-1peer-fast", Cfg: worldCfg{Geom: "g2x2", Peers: []peerCfg{{Fast: true, Ext: true, DontHave: 7}}, AutoDrain: true},
+		{BothMapOrders: true, Name: "c09-1peer-fast", Cfg: worldCfg{Geom: "g2x2", Peers: []peerCfg{{Fast: true, Ext: true, DontHave: 7}}, AutoDrain: true},
 			Alphabet: dl, Depth: 6, DepthT: 8},
-		{Name: "c09-shortblock", Cfg: worldCfg{Geom: "gshort", Peers: []peerCfg{{Fast: false, Ext: false}}, AutoDrain: true},
+		{BothMapOrders: true, Name: "c09-shortblock", Cfg: worldCfg{Geom: "gshort", Peers: []peerCfg{{Fast: false, Ext: false}}, AutoDrain: true},
 			Setup:    []string{"bf:0:7", "unchoke:0", "want:2:1"},
 			Alphabet: []string{"tick", "ans:0:old:full", "ans:0:old:short", "ans:0:old:empty", "ans:0:old:corrupt", "choke:0", "unchoke:0", "close:0", "adv:2", "adv:31", "want:1:1", "unwant:2:1", "bf:0:3"},
 			Depth: 6, DepthT: 8},
-		{Name: "c09-tail", Cfg: worldCfg{Geom: "gtail", Peers: []peerCfg{{Fast: true, Ext: true, DontHave: 7}}, AutoDrain: true},
+		{BothMapOrders: true, Name: "c09-tail", Cfg: worldCfg{Geom: "gtail", Peers: []peerCfg{{Fast: true, Ext: true, DontHave: 7}}, AutoDrain: true},
 			Setup:    []string{"haveall:0", "unchoke:0", "want:2:1", "tick"},
 			Alphabet: []string{"tick", "ans:0:old:full", "ans:0:new:full", "ans:0:old:long", "ans:0:old:short", "rej:0:old", "chokesilent:0", "choke:0", "unchoke:0", "close:0", "adv:2", "adv:31", "unwant:2:1", "evict"},
 			Depth: 6, DepthT: 8},
-		{Name: "c09-2peers", Cfg: worldCfg{Geom: "g2x2", Peers: []peerCfg{{Fast: true, Ext: true, DontHave: 7}, {}}, AutoDrain: true},
+		{BothMapOrders: true, Name: "c09-2peers", Cfg: worldCfg{Geom: "g2x2", Peers: []peerCfg{{Fast: true, Ext: true, DontHave: 7}, {}}, AutoDrain: true},
 			Setup:    []string{"haveall:0", "bf:1:3", "unchoke:0", "unchoke:1", "want:0:1", "want:1:0", "tick"},
 			Alphabet: []string{"tick", "ans:0:old:full", "ans:1:old:full", "ans:0:old:long", "ans:1:old:corrupt", "ansq:0", "ansq:1", "rej:0:old", "choke:1", "close:0", "close:1", "adv:2", "adv:31", "unwant:0:1", "bf:1:1", "stall:1", "resume:1"},
 			Depth: 5, DepthT: 7},
-		{Name: "c09-queue", Cfg: worldCfg{Geom: "g2x2", Peers: []peerCfg{{Fast: true, Ext: true, DontHave: 7}}, AutoDrain: true},
+		{BothMapOrders: true, Name: "c09-queue", Cfg: worldCfg{Geom: "g2x2", Peers: []peerCfg{{Fast: true, Ext: true, DontHave: 7}}, AutoDrain: true},
 			Setup:    []string{"haveall:0", "unchoke:0", "want:0:1", "want:1:0", "cmd:0:0", "cmd:0:1", "cmd:0:2", "cmd:0:3"},
 			Alphabet: []string{"ansq:0", "ans:0:old:full", "ans:0:new:full", "ans:0:old:corrupt", "rej:0:old", "choke:0", "chokesilent:0", "unchoke:0", "close:0", "adv:2", "adv:31", "unwant:0:1", "unwant:1:0", "donthave:0:1", "tick", "cmd:0:2"},
 			Depth: 5, DepthT: 7},
-		{Name: "c09-webseed", Cfg: worldCfg{Geom: "gtail", Peers: []peerCfg{{Fast: true, Ext: true, DontHave: 7}}, Webseed: true, AutoDrain: true},
+		{BothMapOrders: true, Name: "c09-webseed", Cfg: worldCfg{Geom: "gtail", Peers: []peerCfg{{Fast: true, Ext: true, DontHave: 7}}, Webseed: true, AutoDrain: true},
 			Setup:    []string{"bf:0:3"},
 			Alphabet: []string{"want:2:1", "want:0:0", "unwant:2:1", "tick", "wsmode:404", "wsmode:body-short", "wsmode:body-long", "wsmode:shifted", "wsmode:honoured", "wsmode:body-fails-mid", "wsmode:transport-error",
 				"unchoke:0", "ans:0:old:full", "adv:2", "adv:31", "adv:400", "close:0", "evict", "setconf:0", "setconf:1"},
 			Depth: 5, DepthT: 6},
-		{Name: "c09-manual-events", Cfg: worldCfg{Geom: "g2x2", Peers: []peerCfg{{Fast: true, Ext: true, DontHave: 7}, {Fast: true}}, AutoDrain: false},
+		{BothMapOrders: true, Name: "c09-manual-events", Cfg: worldCfg{Geom: "g2x2", Peers: []peerCfg{{Fast: true, Ext: true, DontHave: 7}, {Fast: true}}, AutoDrain: false},
 			Setup:    []string{"haveall:0", "drain", "haveall:1", "drain", "unchoke:0", "drain", "unchoke:1", "drain", "want:0:1", "tick"},
 			Alphabet: []string{"ev", "drain", "tick", "ans:0:old:full", "ans:1:old:full", "close:0", "close:1", "choke:0", "unwant:0:1", "adv:2"},
 			Depth: 6, DepthT: 8},
@@ -49,16 +49,16 @@ func c09SelSpecs() []*bfsSpec {
 	return []*bfsSpec{
 		// a one-slot event queue: advertisements park inside the peer while the
 		// remote retracts them
-		{Name: "c09-sel-queue1", Cfg: worldCfg{Geom: "g2x2", Peers: []peerCfg{{Fast: true, Ext: true, DontHave: 7}}, EventCap: 1, Gates: true},
+		{BothMapOrders: true, Name: "c09-sel-queue1", Cfg: worldCfg{Geom: "g2x2", Peers: []peerCfg{{Fast: true, Ext: true, DontHave: 7}}, EventCap: 1, Gates: true},
 			Setup:    []string{"drain", "have:0:0", "have:0:1", "gate:0"},
 			Alphabet: []string{"ev", "drain", "donthave:0:1", "donthave:0:0", "have:0:1", "havenone:0", "haveall:0", "pstep:0:2", "pstep:0:3", "pstep:0:4", "ungate:0", "gate:0", "close:0"},
 			Depth: 5, DepthT: 7},
 		// requests in flight while chokes, answers, rejects and scheduler commands cross
-		{Name: "c09-sel-requests", Cfg: worldCfg{Geom: "g2x2", Peers: []peerCfg{{Fast: true, Ext: true, DontHave: 7}}, Gates: true},
+		{BothMapOrders: true, Name: "c09-sel-requests", Cfg: worldCfg{Geom: "g2x2", Peers: []peerCfg{{Fast: true, Ext: true, DontHave: 7}}, Gates: true},
 			Setup:    []string{"haveall:0", "drain", "unchoke:0", "drain", "want:0:1", "tick", "drain", "gate:0"},
 			Alphabet: []string{"choke:0", "unchoke:0", "ans:0:old:full", "rej:0:old", "pstep:0:2", "pstep:0:3", "pstep:0:4", "pstep:0:6", "ev", "drain", "tick", "ungate:0", "unwant:0:1", "adv:2", "close:0"},
 			Depth: 5, DepthT: 7},
-		{Name: "c09-sel-2peers", Cfg: worldCfg{Geom: "g2x2", Peers: []peerCfg{{Fast: true, Ext: true, DontHave: 7}, {}}, EventCap: 2, Gates: true},
+		{BothMapOrders: true, Name: "c09-sel-2peers", Cfg: worldCfg{Geom: "g2x2", Peers: []peerCfg{{Fast: true, Ext: true, DontHave: 7}, {}}, EventCap: 2, Gates: true},
 			Setup:    []string{"drain", "bf:1:3", "drain", "have:0:0", "drain", "gate:0"},
 			Alphabet: []string{"ev", "drain", "have:0:1", "donthave:0:0", "donthave:0:1", "havenone:0", "bf:1:1", "close:1", "pstep:0:3", "pstep:0:4", "ungate:0", "close:0"},
 			Depth: 5, DepthT: 7},
